@@ -5,22 +5,17 @@
     exactly the actions it returns when it runs alone on the projected history
     (events addressed to [i] renamed to id 0, events addressed to neighbours
     renamed to an unknown id), whatever the neighbours are and whatever the
-    two random tapes contain.
+    two random tapes contain ([solo_equals_combined_full]).
 
-    IMPORTANT (model oddity, see [solo_tape_counterexample] at the end): the
-    tape of the model is untyped ([nat -> N]) and [sample_state] turns ANY
-    entry k into the draw r = k / 2^23.  A probability-1 transition is taken
-    iff r < 1.0, i.e. iff k < 2^23; an entry >= 2^23 (which can never be
-    produced by the implementation's generator) makes the "probability-1"
-    transition fail.  So the statement "for every pair of tapes" is false for
-    probability-1 machines, and true only for machines that never move.  The
-    theorems below are therefore parametrised by a predicate [K] on draws:
-    the machine's transition vectors must pick the same target for every
-    draw satisfying [K], and both tapes must only contain draws satisfying
-    [K].  Instances: [K k := k < 2^23] (the real generator; probability-1
-    vectors qualify: [solo_equals_combined_23]) and [K k := True] (all tapes;
-    only vectors that are constant on all of N qualify). *)
-From MB Require Import Model.Framework.
+    Tape independence: [sample_state] reads the 23-bit draw
+    [tp p mod 2^23], so a vector that picks the same target for every draw
+    k < 2^23 (in particular a probability-1 vector: k/2^23 < 1.0) picks it on
+    every tape; a constant distribution takes the fast path of [dist_sample]
+    and ignores the tape entry it consumes.  (An earlier version of the model
+    did not mask the draw; then a tape entry >= 2^23 made a probability-1
+    transition fail and the statement needed a hypothesis on the tapes.  That
+    counterexample is gone with the masked draw.) *)
+From MB Require Import Model.Framework Model.Validate.
 From MB Require Import Proofs.SampleState.
 From MB Require Import Proofs.Tactics Proofs.ListFacts Proofs.FrameworkStructure Proofs.FrameworkInv
      Proofs.FrameworkTotal Proofs.FrameworkSlots Proofs.FrameworkAcct Proofs.Counters
@@ -54,14 +49,9 @@ Definition det_ocounter (o : option counter) : Prop :=
   match o with Some cn => det_counter cn | None => True end.
 
 Section Det.
-  (** the admissible draws *)
-  Variable K : N -> Prop.
-
-  Definition tape_in (tp : tape) : Prop := forall p, K (tp p).
-
-  (** the vector picks the same target (or none) for every admissible draw *)
+  (** the vector picks the same target (or none) for every 23-bit draw *)
   Definition det_trans (v : list trans) : Prop :=
-    forall k k', K k -> K k' ->
+    forall k k', k < 2 ^ 23 -> k' < 2 ^ 23 ->
       pick_trans v f32_zero (f32_of_k k) = pick_trans v f32_zero (f32_of_k k').
 
   Record det_state (st : state) : Prop := mk_det_state {
@@ -121,13 +111,16 @@ Section Det.
     cbn [fst] in *. subst v1. reflexivity.
   Qed.
 
+  Lemma draw_lt : forall (tp : tape) p, tp p mod 8388608 < 2 ^ 23.
+  Proof. intros tp p. change (2 ^ 23) with 8388608. apply N.mod_lt. discriminate. Qed.
+
   Lemma sample_state_det : forall tp p tp1 p1 st ev,
-    det_state st -> tape_in tp -> tape_in tp1 ->
+    det_state st ->
     fst (sample_state tp p st ev) = fst (sample_state tp1 p1 st ev).
   Proof.
-    intros tp p tp1 p1 st ev Hd Ht Ht1. unfold sample_state.
+    intros tp p tp1 p1 st ev Hd. unfold sample_state.
     destruct (nth_error (strans st) (event_idx ev)) as [[v|]|] eqn:E; try reflexivity.
-    cbn [fst]. apply (ds_tr st Hd v); [eapply nth_error_In; eauto|apply Ht|apply Ht1].
+    cbn [fst]. apply (ds_tr st Hd v); [eapply nth_error_In; eauto|apply draw_lt|apply draw_lt].
   Qed.
 End Det.
 
@@ -285,16 +278,13 @@ Qed.
 
 (** ** the simulation *)
 Section Sim.
-  Variable K : N -> Prop.
   Variable c : cfg.
   Variable i : nat.
   Variable m : machine.
   Variable tp tp1 : tape.
   Hypothesis Hm : nth_error (machines c) i = Some m.
-  Hypothesis Hdet : det_machine K m.
+  Hypothesis Hdet : det_machine m.
   Hypothesis Hns : no_signal c.
-  Hypothesis Htp : tape_in K tp.
-  Hypothesis Htp1 : tape_in K tp1.
 
   Let c1 := solo_cfg c m.
 
@@ -452,13 +442,13 @@ Section Sim.
     destruct (saction st) as [[t|b r t l|b r t d l|r d l]|] eqn:Ea.
     - inversion H; inversion H1; subst.
       exact (Rel_set_slot _ _ (Some (TCancel 0 t)) HRL).
-    - pose proof (ds_act K st Hst _ Ea) as [Hdt _].
+    - pose proof (ds_act st Hst _ Ea) as [Hdt _].
       pose proof (sample_day_clamped_det tp (pos sL) tp1 (pos sL1) t Hdt) as Ev.
       destruct (sample_day_clamped tp (pos sL) t) as [v p]. destruct (sample_day_clamped tp1 (pos sL1) t) as [v1 p1].
       cbn [fst] in Ev. subst v1. inversion H; inversion H1; subst.
       assert (HRp : Rel (set_pos sL p) (set_pos sL1 p1)) by (ghost HRL).
       exact (Rel_set_slot _ _ (Some (TSendPadding 0 (c_from_micros (clk c) v) b r)) HRp).
-    - pose proof (ds_act K st Hst _ Ea) as (Hdt & Hdd & _).
+    - pose proof (ds_act st Hst _ Ea) as (Hdt & Hdd & _).
       pose proof (sample_day_clamped_det tp (pos sL) tp1 (pos sL1) t Hdt) as Ev.
       destruct (sample_day_clamped tp (pos sL) t) as [v p]. destruct (sample_day_clamped tp1 (pos sL1) t) as [v1 p1].
       pose proof (sample_day_clamped_det tp p tp1 p1 d Hdd) as Ev2.
@@ -466,7 +456,7 @@ Section Sim.
       cbn [fst] in Ev, Ev2. subst v1 v12. inversion H; inversion H1; subst.
       assert (HRp : Rel (set_pos sL p2) (set_pos sL1 p12)) by (ghost HRL).
       exact (Rel_set_slot _ _ (Some (TBlockOutgoing 0 (c_from_micros (clk c) v) (c_from_micros (clk c) v2) b r)) HRp).
-    - pose proof (ds_act K st Hst _ Ea) as [Hdd _].
+    - pose proof (ds_act st Hst _ Ea) as [Hdd _].
       pose proof (sample_day_clamped_det tp (pos sL) tp1 (pos sL1) d Hdd) as Ev.
       destruct (sample_day_clamped tp (pos sL) d) as [v p]. destruct (sample_day_clamped tp1 (pos sL1) d) as [v1 p1].
       cbn [fst] in Ev. subst v1. inversion H; inversion H1; subst.
@@ -512,7 +502,7 @@ Section Sim.
     destruct (match sctr_a st with Some cn => ctr_change tp1 (pos s1) cn (cb r) | None => (0, pos s1) end)
       as [va1 p11] eqn:EA1.
     assert (va1 = va).
-    { pose proof (ds_ca K st Hds) as Hc. destruct (sctr_a st) as [cn|].
+    { pose proof (ds_ca st Hds) as Hc. destruct (sctr_a st) as [cn|].
       - pose proof (ctr_change_det tp (pos s) tp1 (pos s1) cn (cb r) Hc) as E.
         rewrite EA, EA1 in E. cbn [fst] in E. congruence.
       - inversion EA; inversion EA1; congruence. }
@@ -522,7 +512,7 @@ Section Sim.
     destruct (match sctr_b st with Some cn => ctr_change tp1 p11 cn (ca r) | None => (0, p11) end)
       as [vb1 p12] eqn:EB1.
     assert (vb1 = vb).
-    { pose proof (ds_cb K st Hds) as Hc. destruct (sctr_b st) as [cn|].
+    { pose proof (ds_cb st Hds) as Hc. destruct (sctr_b st) as [cn|].
       - pose proof (ctr_change_det tp p1 tp1 p11 cn (ca r) Hc) as E.
         rewrite EB, EB1 in E. cbn [fst] in E. congruence.
       - inversion EB; inversion EB1; congruence. }
@@ -559,7 +549,7 @@ Section Sim.
     rewrite machine_comb in H. rewrite machine_solo in H1. cbn [bind] in H, H1.
     mbind H as st Est. cbn [bind] in H1.
     apply getN_ok in Est. pose proof (nthN_In _ _ _ Est) as Hin. pose proof (Hdet st Hin) as Hds.
-    pose proof (sample_state_det K tp (pos s0) tp1 (pos s10) st ev Hds Htp Htp1) as Ens.
+    pose proof (sample_state_det tp (pos s0) tp1 (pos s10) st ev Hds) as Ens.
     destruct (sample_state tp (pos s0) st ev) as [nxt p] eqn:Es.
     destruct (sample_state tp1 (pos s10) st ev) as [nxt1 p1] eqn:Es1.
     cbn [fst] in Ens. subst nxt1.
@@ -585,7 +575,7 @@ Section Sim.
         as [l1 q1] eqn:El1.
       assert (l1 = l).
       { destruct (saction nst) as [a|] eqn:Ea.
-        - pose proof (sample_limit_det tp (pos sA) tp1 (pos sA1) a (ds_act K nst Hdn a Ea)) as E.
+        - pose proof (sample_limit_det tp (pos sA) tp1 (pos sA1) a (ds_act nst Hdn a Ea)) as E.
           rewrite El, El1 in E. cbn [fst] in E. congruence.
         - inversion El; inversion El1; congruence. }
       subst l1. inversion E2; inversion E12; subst.
@@ -955,7 +945,7 @@ Section Sim.
     assert (Hl : l1 = match saction st0 with Some a => fst (sample_limit tp q a) | None => 0 end).
     { pose proof (Hdet st0 (nth_error_In _ _ Hst)) as Hds.
       destruct (saction st0) as [a|] eqn:Ea; [|inversion El1; reflexivity].
-      rewrite (sample_limit_det tp q tp1 0%nat a (ds_act K st0 Hds a Ea)), El1. reflexivity. }
+      rewrite (sample_limit_det tp q tp1 0%nat a (ds_act st0 Hds a Ea)), El1. reflexivity. }
     rewrite <- Hl in Hr.
     constructor; cbn; auto.
     - eexists. split; [exact Hr|reflexivity].
@@ -978,36 +968,54 @@ Section Sim.
       destruct (IH _ _ _ _ _ _ HRa Eb Eb1) as [HRb Hb].
       split; [exact HRb|]. cbn [map]. rewrite Ha, Hb. reflexivity.
   Qed.
-(* SIM-END *)
 End Sim.
 
 
-(** ** C10, the simulation theorem (parametrised by the admissible draws [K]) *)
-Theorem solo_equals_combined : forall (K : N -> Prop) c i m tp tp1 t0 h s0 s outs s10 s1 outs1,
-  nth_error (machines c) i = Some m -> det_machine K m -> no_signal c ->
-  tape_in K tp -> tape_in K tp1 ->
+(** ** C10, the simulation theorem: semantic hypotheses, every pair of tapes *)
+Theorem solo_equals_combined : forall c i m tp tp1 t0 h s0 s outs s10 s1 outs1,
+  nth_error (machines c) i = Some m -> det_machine m -> no_signal c ->
   fnew c tp t0 = Ok s0 -> run c tp s0 h = Ok (s, outs) ->
   fnew (solo_cfg c m) tp1 t0 = Ok s10 -> run (solo_cfg c m) tp1 s10 (proj_hist i h) = Ok (s1, outs1) ->
   map (acts_of i) outs = map (map (rename_to i)) outs1.
 Proof.
-  intros K c i m tp tp1 t0 h s0 s outs s10 s1 outs1 Hm Hdet Hns Htp Htp1 F R F1 R1.
-  pose proof (fnew_solo K c i m tp tp1 Hm Hdet t0 s0 s10 F F1) as HR0.
-  exact (proj2 (run_solo K c i m tp tp1 Hm Hdet Hns Htp Htp1 h s0 s10 s outs s1 outs1 HR0 R R1)).
+  intros c i m tp tp1 t0 h s0 s outs s10 s1 outs1 Hm Hdet Hns F R F1 R1.
+  pose proof (fnew_solo c i m tp tp1 Hm Hdet t0 s0 s10 F F1) as HR0.
+  exact (proj2 (run_solo c i m tp tp1 Hm Hdet Hns h s0 s10 s outs s1 outs1 HR0 R R1)).
 Qed.
 
 (** the call-by-call form, from any pair of related states *)
-Definition C10_Rel := Rel.
-
-Theorem solo_equals_combined_call : forall (K : N -> Prop) c i m tp tp1 s s1 evs t s' acts s1' acts1,
-  nth_error (machines c) i = Some m -> det_machine K m -> no_signal c ->
-  tape_in K tp -> tape_in K tp1 ->
+Theorem solo_equals_combined_call : forall c i m tp tp1 s s1 evs t s' acts s1' acts1,
+  nth_error (machines c) i = Some m -> det_machine m -> no_signal c ->
   Rel i s s1 ->
   trigger_events c tp s evs t = Ok (s', acts) ->
   trigger_events (solo_cfg c m) tp1 s1 (map (proj_event i) evs) t = Ok (s1', acts1) ->
   Rel i s' s1' /\ acts_of i acts = map (rename_to i) acts1.
 Proof.
-  intros K c i m tp tp1 s s1 evs t s' acts s1' acts1 Hm Hdet Hns Htp Htp1.
-  exact (trigger_events_solo K c i m tp tp1 Hm Hdet Hns Htp Htp1 s s1 evs t s' acts s1' acts1).
+  intros c i m tp tp1 s s1 evs t s' acts s1' acts1 Hm Hdet Hns.
+  exact (trigger_events_solo c i m tp tp1 Hm Hdet Hns s s1 evs t s' acts s1' acts1).
+Qed.
+
+(** with validated machines both runs exist (C01) and agree *)
+Theorem solo_equals_combined_total : forall c i m tp tp1 t0 h,
+  nth_error (machines c) i = Some m -> det_machine m -> no_signal c ->
+  machines_ok c -> nonempty_ok c -> clock_total (clk c) ->
+  exists s0 s outs s10 s1 outs1,
+    fnew c tp t0 = Ok s0 /\ run c tp s0 h = Ok (s, outs) /\
+    fnew (solo_cfg c m) tp1 t0 = Ok s10 /\
+    run (solo_cfg c m) tp1 s10 (proj_hist i h) = Ok (s1, outs1) /\
+    map (acts_of i) outs = map (map (rename_to i)) outs1.
+Proof.
+  intros c i m tp tp1 t0 h Hm Hdet Hns Hok Hne Hclk.
+  pose proof (nth_error_In _ _ Hm) as Hin.
+  assert (Hok1 : machines_ok (solo_cfg c m)) by (intros m' [<-|[]]; apply Hok; exact Hin).
+  assert (Hne1 : nonempty_ok (solo_cfg c m)) by (intros m' [<-|[]]; apply Hne; exact Hin).
+  destruct (fnew_total c tp t0 Hne) as (s0 & F & HI).
+  destruct (run_total c tp h s0 Hok Hclk HI) as (s & outs & R & _).
+  destruct (fnew_total (solo_cfg c m) tp1 t0 Hne1) as (s10 & F1 & HI1).
+  destruct (run_total (solo_cfg c m) tp1 (proj_hist i h) s10 Hok1 Hclk HI1) as (s1 & outs1 & R1 & _).
+  exists s0, s, outs, s10, s1, outs1.
+  split; [exact F|]. split; [exact R|]. split; [exact F1|]. split; [exact R1|].
+  exact (solo_equals_combined c i m tp tp1 t0 h s0 s outs s10 s1 outs1 Hm Hdet Hns F R F1 R1).
 Qed.
 
 (** ** syntactic sufficient conditions *)
@@ -1042,9 +1050,6 @@ Definition no_signal_b (c : cfg) : bool :=
     | None => true
     end) (strans st)) (states m)) (machines c).
 
-(** the draws of the real generator *)
-Definition K23 (k : N) : Prop := k < 2 ^ 23.
-
 Lemma det_dist_b_sound : forall d, det_dist_b d = true -> det_dist d.
 Proof. unfold det_dist_b, det_dist; intros d H. destruct (dtype d); try discriminate; exact H. Qed.
 
@@ -1063,11 +1068,11 @@ Proof.
   apply orb_prop in H. destruct H as [H|H]; [left; exact H|right; apply det_odist_b_sound; exact H].
 Qed.
 
-Lemma det_trans_b_sound : forall v, det_trans_b v = true -> det_trans K23 v.
+Lemma det_trans_b_sound : forall v, det_trans_b v = true -> det_trans v.
 Proof.
   intros [|[t p] v] H k k' Hk Hk'; [reflexivity|].
   cbn [det_trans_b] in H. apply N.eqb_eq in H. subst p.
-  assert (P : forall k0, K23 k0 ->
+  assert (P : forall k0, k0 < 2 ^ 23 ->
             pick_trans ((t, ONE32) :: v) f32_zero (f32_of_k k0) = Some t).
   { intros k0 Hk0. pose proof (prob_one_always t k0 Hk0) as Q.
     cbn [pick_trans] in Q |- *. fold ONE32 in Q.
@@ -1075,7 +1080,7 @@ Proof.
   transitivity (Some t); [apply P; exact Hk|symmetry; apply P; exact Hk'].
 Qed.
 
-Theorem det_machine_b_sound : forall m, det_machine_b m = true -> det_machine K23 m.
+Theorem det_machine_b_sound : forall m, det_machine_b m = true -> det_machine m.
 Proof.
   unfold det_machine_b, det_machine; intros m H st Hst.
   rewrite forallb_forall in H. specialize (H st Hst). unfold det_state_b in H. split_andb.
@@ -1098,77 +1103,64 @@ Proof.
   destruct (N.eqb_spec t STATE_SIGNAL); [discriminate H|assumption].
 Qed.
 
-(** C10 for the machines of DESIGN.md (probability-1 vectors, constant
-    distributions), on tapes whose entries are 23-bit draws *)
-Theorem solo_equals_combined_23 : forall c i m tp tp1 t0 h s0 s outs s10 s1 outs1,
+(** ** C10 for the machines of DESIGN.md (probability-1 vectors, constant
+    distributions): arbitrary neighbours, every position, every history, every
+    pair of tapes *)
+Theorem solo_equals_combined_full : forall c i m tp tp1 t0 h s0 s outs s10 s1 outs1,
   nth_error (machines c) i = Some m -> det_machine_b m = true -> no_signal_b c = true ->
-  (forall p, tp p < 2 ^ 23) -> (forall p, tp1 p < 2 ^ 23) ->
-  fnew c tp t0 = Ok s0 -> run c tp s0 h = Ok (s, outs) ->
-  fnew (solo_cfg c m) tp1 t0 = Ok s10 -> run (solo_cfg c m) tp1 s10 (proj_hist i h) = Ok (s1, outs1) ->
-  map (acts_of i) outs = map (map (rename_to i)) outs1.
-Proof.
-  intros c i m tp tp1 t0 h s0 s outs s10 s1 outs1 Hm Hd Hn Ht Ht1.
-  apply (solo_equals_combined K23 c i m tp tp1 t0 h s0 s outs s10 s1 outs1 Hm);
-    [apply det_machine_b_sound; exact Hd|apply no_signal_b_sound; exact Hn|exact Ht|exact Ht1].
-Qed.
-
-(** machines whose vectors are constant over ALL of N (in particular machines
-    that never move): every pair of tapes *)
-Theorem solo_equals_combined_all_tapes : forall c i m tp tp1 t0 h s0 s outs s10 s1 outs1,
-  nth_error (machines c) i = Some m -> det_machine (fun _ => True) m -> no_signal c ->
   fnew c tp t0 = Ok s0 -> run c tp s0 h = Ok (s, outs) ->
   fnew (solo_cfg c m) tp1 t0 = Ok s10 -> run (solo_cfg c m) tp1 s10 (proj_hist i h) = Ok (s1, outs1) ->
   map (acts_of i) outs = map (map (rename_to i)) outs1.
 Proof.
   intros c i m tp tp1 t0 h s0 s outs s10 s1 outs1 Hm Hd Hn.
-  apply (solo_equals_combined (fun _ => True) c i m tp tp1 t0 h s0 s outs s10 s1 outs1 Hm Hd Hn);
-    intros p; exact I.
+  apply (solo_equals_combined c i m tp tp1 t0 h s0 s outs s10 s1 outs1 Hm);
+    [apply det_machine_b_sound; exact Hd|apply no_signal_b_sound; exact Hn].
 Qed.
 
-(** ** the statement without a hypothesis on the tapes is false *)
-Definition cx_state : state :=
+(** for a validated configuration on a clock whose additions do not overflow
+    both runs exist and agree *)
+Theorem solo_equals_combined_full_total : forall c i m tp tp1 t0 h,
+  nth_error (machines c) i = Some m -> det_machine_b m = true -> no_signal_b c = true ->
+  valid_cfg c = true -> clock_total (clk c) ->
+  exists s0 s outs s10 s1 outs1,
+    fnew c tp t0 = Ok s0 /\ run c tp s0 h = Ok (s, outs) /\
+    fnew (solo_cfg c m) tp1 t0 = Ok s10 /\
+    run (solo_cfg c m) tp1 s10 (proj_hist i h) = Ok (s1, outs1) /\
+    map (acts_of i) outs = map (map (rename_to i)) outs1.
+Proof.
+  intros c i m tp tp1 t0 h Hm Hd Hn Hv Hclk.
+  apply solo_equals_combined_total; auto.
+  - apply det_machine_b_sound; exact Hd.
+  - apply no_signal_b_sound; exact Hn.
+  - apply valid_cfg_machines_ok; exact Hv.
+  - apply valid_cfg_nonempty; exact Hv.
+Qed.
+
+(** ** sanity (non-vacuity): a deterministic machine between two randomised
+    neighbours (probability-1/2 transitions, Uniform[0,100] timeout), three
+    calls, tapes with arbitrary 64-bit entries *)
+Definition HALF32 : N := 1056964608.   (* 0.5f32 *)
+Definition F100 : N := 4636737291354636288.   (* 100.0f64 *)
+Definition dm_state : state :=
   mkstate (Some (SendPadding false false (mkdist (Uniform 0 0) 0 0) None)) None None
           [None; None; None; Some [(0, ONE32)]; None; None; None; None; None; None; None; None; None].
-Definition cx_machine : machine := mkmachine 1000 0 0 0 [cx_state].
-Definition cx_cfg : cfg := mkcfg [cx_machine] 0 0 vclock.
-Definition cx_hist : list (list trigger_event * Z) := [([TENormalSent], 1%Z)].
-Definition cx_outs (c : cfg) (tp : tape) (h : list (list trigger_event * Z)) : option (list (list taction)) :=
+Definition dm_machine : machine := mkmachine 1000 0 0 0 [dm_state].
+Definition nb_state : state :=
+  mkstate (Some (SendPadding false false (mkdist (Uniform 0 F100) 0 F100) None)) None None
+          [None; None; None; Some [(0, HALF32)]; Some [(0, ONE32)]; None; None; None; None; None; None; None; None].
+Definition nb_machine : machine := mkmachine 1000 0 0 0 [nb_state].
+Definition sn_cfg : cfg := mkcfg [nb_machine; dm_machine; nb_machine] 0 0 vclock.
+Definition sn_hist : list (list trigger_event * Z) :=
+  [([TENormalSent; TEPaddingSent 1], 5%Z); ([TENormalSent; TEPaddingSent 0; TEBlockingBegin 1], 9%Z);
+   ([TETunnelSent; TENormalSent; TEPaddingSent 2; TEBlockingEnd], 12%Z)].
+Definition sn_tp : tape :=
+  fun p => (N.of_nat p * 6364136223846793005 + 1442695040888963407) mod 2 ^ 64.
+Definition sn_tp1 : tape := fun p => N.of_nat p * 1234567891234567 + 2 ^ 40.
+Definition outs_of (c : cfg) (tp : tape) (h : list (list trigger_event * Z)) : option (list (list taction)) :=
   match fnew c tp 0%Z with
   | Ok s0 => match run c tp s0 h with Ok (_, outs) => Some outs | _ => None end
   | _ => None
   end.
-
-(** a probability-1 machine, alone in the configuration (so combined = solo
-    configuration, i = 0): with draws 0 it pads on NormalSent; on a tape whose
-    entries are 2^23 (r = 1.0, not < 1.0) it does nothing *)
-Example cx_tape_zero : cx_outs cx_cfg (fun _ => 0) cx_hist = Some [[TSendPadding 0 0 false false]].
-Proof. vm_compute. reflexivity. Qed.
-
-Example cx_tape_big :
-  cx_outs (solo_cfg cx_cfg cx_machine) (fun _ => 2 ^ 23) (proj_hist 0 cx_hist) = Some [[]].
-Proof. vm_compute. reflexivity. Qed.
-
-Theorem solo_tape_counterexample :
-  exists c i m tp tp1 t0 h s0 s outs s10 s1 outs1,
-    nth_error (machines c) i = Some m /\ det_machine_b m = true /\ no_signal_b c = true /\
-    fnew c tp t0 = Ok s0 /\ run c tp s0 h = Ok (s, outs) /\
-    fnew (solo_cfg c m) tp1 t0 = Ok s10 /\ run (solo_cfg c m) tp1 s10 (proj_hist i h) = Ok (s1, outs1) /\
-    map (acts_of i) outs <> map (map (rename_to i)) outs1.
-Proof.
-  exists cx_cfg, 0%nat, cx_machine, (fun _ => 0), (fun _ => 2 ^ 23), 0%Z, cx_hist.
-  pose proof cx_tape_zero as A. pose proof cx_tape_big as B. unfold cx_outs in A, B.
-  destruct (fnew cx_cfg (fun _ => 0) 0%Z) as [s0| |] eqn:F; try discriminate A.
-  destruct (run cx_cfg (fun _ => 0) s0 cx_hist) as [[s outs]| |] eqn:R; try discriminate A.
-  destruct (fnew (solo_cfg cx_cfg cx_machine) (fun _ => 2 ^ 23) 0%Z) as [s10| |] eqn:F1; try discriminate B.
-  destruct (run (solo_cfg cx_cfg cx_machine) (fun _ => 2 ^ 23) s10 (proj_hist 0 cx_hist)) as [[s1 outs1]| |] eqn:R1;
-    try discriminate B.
-  exists s0, s, outs, s10, s1, outs1.
-  inversion A; inversion B; subst.
-  split; [reflexivity|]. split; [vm_compute; reflexivity|]. split; [vm_compute; reflexivity|].
-  split; [reflexivity|]. split; [exact R|]. split; [reflexivity|]. split; [exact R1|].
-  intro X. vm_compute in X. discriminate X.
-Qed.
-
-Print Assumptions solo_equals_combined.
-Print Assumptions solo_equals_combined_23.
-Print Assumptions solo_tape_counterexample.
+Eval vm_compute in (det_machine_b dm_machine, no_signal_b sn_cfg, valid_cfg sn_cfg).
+Eval vm_compute in outs_of sn_cfg sn_tp sn_hist.
+Eval vm_compute in outs_of (solo_cfg sn_cfg dm_machine) sn_tp1 (proj_hist 1 sn_hist).
